@@ -77,7 +77,7 @@ class LFRicAlgorithmInvokeCall(AlgorithmInvokeCall):
         :rtype: str
 
         '''
-        if (len(self.arguments) == 1 and
+        if (not self._name and len(self.arguments) == 1 and
                 isinstance(self.arguments[0], LFRicBuiltinFunctor)):
             # By default the name of the kernel is added if there is
             # only one functor. However we don't add this in LFRic if
